@@ -82,10 +82,10 @@ fn check_pair(a: u32, b: u32, range: bool, cp: u32, rec: &mut Rec) {
 }
 
 fn window(env: &Env) -> Vec<u32> {
-    let k = if env.quick() { 10u32 } else { 24 };
+    let k = if env.quick() { 16u32 } else { 40 };
     let mut w: Vec<u32> = (0..k).collect();
     w.extend(u32::MAX - (k - 1)..=u32::MAX);
-    let h = if env.quick() { 2u32 } else { 8 };
+    let h = if env.quick() { 4u32 } else { 12 };
     w.extend(0x10FFFF - h + 1..=0x10FFFF + h);
     w.sort();
     w.dedup();
@@ -185,7 +185,7 @@ pub fn run(env: &Env) -> Rec {
     }
     rec.count_n("observed-only:Codepoints==Codepoints asymmetric pairs (not part of C18)", asym);
     // random sorted disjoint tables, searched the way the library searches
-    let n_tables = env.n(10_000, 1_000_000);
+    let n_tables = env.n(200_000, 5_000_000);
     let per = 500;
     let r2 = par(n_tables.div_ceil(per), |i, rec| {
         let mut rng = Rng::stream(env.seed, 0x18_0000 + i as u64);
